@@ -18,7 +18,7 @@ HERE = os.path.dirname(os.path.abspath(__file__))
 REPO = os.environ.get("VERIF_REPO", "/repo")
 
 NAMES = ("sqrt exp log log2 log10 log1p sin cos tan asin acos atan sinh cosh tanh asinh acosh atanh erf tgamma lgamma "
-         "g_exp g_log g_sin g_cos g_tan g_tanh hypot atan2 pow g_pow c_sin c_cos c_tan c_sinh c_cosh c_tanh c_log c_log10 "
+         "g_exp g_log g_sin g_cos g_tan g_tanh hypot hypot3 atan2 pow g_pow c_polar c_sin c_cos c_tan c_sinh c_cosh c_tanh c_log c_log10 "
          "c_abs c_arg c_norm").split()
 EDGES = [1e-30, 1e-10, 1e-5, 1e-2, 0.5, 2.0, 10.0, 100.0, 1e4, 1e10, 1e30]
 COUNT = 20000
@@ -37,6 +37,27 @@ def cells(fmt):
         for a, b in zip(EDGES, EDGES[1:]):
             out.append(((S if sgn else 0) + bits(fmt, a), (S if sgn else 0) + bits(fmt, b) - 1,
                         "%s[%g,%g)" % ("-" if sgn else "+", a, b)))
+    return out
+
+
+def near_cells(fmt):
+    """review round: 5 consecutive patterns centred on 2^k (both signs) - the case splits of argument reductions sit at
+    powers of two (gcem sqrt was wrong just below every power of 1/4) - and dense ranges around the overflow / underflow
+    thresholds of exp for the format (sinh / cosh overflowed one binade early); recorded and re-measured like cells"""
+    S = 1 << (fmt - 1)
+    ks = set(range(-34, 35)) | {-65, -64, -63, 63, 64, 65, -100, 100, -126, -125, 126, 127}
+    if fmt == 64:
+        ks |= {-1022, -1021, -1000, -500, 500, 1000, 1022, 1023}
+    out = []
+    for k in sorted(ks):
+        b = bits(fmt, 2.0 ** k)
+        for sgn in (0, 1):
+            out.append(((S if sgn else 0) + b - 2, (S if sgn else 0) + b + 2, "%snear 2^%d" % ("-" if sgn else "+", k)))
+    rng = [(88.0, 90.0), (86.0, 88.0), (102.0, 105.0)] if fmt == 32 else \
+          [(88.0, 90.0), (709.0, 711.0), (707.0, 709.0), (744.0, 746.5)]
+    for a, b in rng:
+        for sgn in (0, 1):
+            out.append(((S if sgn else 0) + bits(fmt, a), (S if sgn else 0) + bits(fmt, b), "%s[%g,%g] dense" % ("-" if sgn else "+", a, b)))
     return out
 
 
@@ -59,8 +80,8 @@ def measure(exe, name, fmt, lo, hi, count):
             "first_special": kv["first_special"], "n": int(kv["n"])}
 
 
-UNARY = [n for n in NAMES if n not in ("hypot", "atan2", "pow", "g_pow") and not n.startswith("c_")]
-BINARY = ["hypot", "atan2", "pow", "g_pow"]
+UNARY = [n for n in NAMES if n not in ("hypot", "hypot3", "atan2", "pow", "g_pow") and not n.startswith("c_")]
+BINARY = ["hypot", "hypot3", "atan2", "pow", "g_pow"]
 
 
 def special_points(fmt):
@@ -120,20 +141,46 @@ def measure_points(exe, reqs):
 
 
 def main():
+    """no argument: measure everything; `--only f1,f2,...`: re-measure these functions only (cells, near-cells and
+    points) and merge into the existing table; `--near`: (re)measure only the near-2^k / threshold cells of every function"""
+    only = None
+    near_only = "--near" in sys.argv
+    if "--only" in sys.argv:
+        only = set(sys.argv[sys.argv.index("--only") + 1].split(","))
+    path = os.path.join(HERE, "approx_bounds.json")
+    old = json.load(open(path)) if (only or near_only) and os.path.exists(path) else {"cells": [], "points": []}
+    want = (lambda n: True) if only is None else (lambda n: n in only)
     with tempfile.TemporaryDirectory() as d:
         exe = build(d)
-        points = measure_points(exe, point_requests())
+        if near_only:
+            points = old["points"]
+        else:
+            reqs = [r for r in point_requests() if want(r[0])]
+            points = [p for p in old["points"] if not want(p["name"])] + measure_points(exe, reqs)
         nbad = sum(1 for p in points if p.get("crash") or p.get("special") or p.get("max_ulp", 0) > 1000)
         print("points:", len(points), "recorded as inaccurate:", nbad, flush=True)
-        table = []
+        if near_only:
+            table = [c for c in old["cells"] if not c.get("near")]
+        else:
+            table = [c for c in old["cells"] if not want(c["name"])]
         for n in NAMES:
+            if not want(n):
+                continue
             for fmt in (32, 64):
-                for lo, hi, tag in cells(fmt):
-                    m = measure(exe, n, fmt, lo, hi, COUNT)
-                    m.update({"name": n, "fmt": fmt, "lo": lo, "hi": hi, "cell": tag})
-                    table.append(m)
-                    print(n, fmt, tag, {k: v for k, v in m.items() if k in ("max_ulp", "special", "crash")}, flush=True)
-    json.dump({"count": COUNT, "cells": table, "points": points}, open(os.path.join(HERE, "approx_bounds.json"), "w"), indent=0)
+                if not near_only:
+                    for lo, hi, tag in cells(fmt):
+                        m = measure(exe, n, fmt, lo, hi, COUNT)
+                        m.update({"name": n, "fmt": fmt, "lo": lo, "hi": hi, "cell": tag})
+                        table.append(m)
+                        print(n, fmt, tag, {k: v for k, v in m.items() if k in ("max_ulp", "special", "crash")}, flush=True)
+                if n in UNARY:
+                    for lo, hi, tag in near_cells(fmt):
+                        m = measure(exe, n, fmt, lo, hi, 5 if "near" in tag else 4000)
+                        m.update({"name": n, "fmt": fmt, "lo": lo, "hi": hi, "cell": tag, "near": 1})
+                        table.append(m)
+                        if m.get("special") or m.get("max_ulp", 0) > 1000 or "crash" in m:
+                            print(n, fmt, tag, {k: v for k, v in m.items() if k in ("max_ulp", "special", "crash")}, flush=True)
+    json.dump({"count": COUNT, "cells": table, "points": points}, open(path, "w"), indent=0)
 
 
 if __name__ == "__main__":
